@@ -886,7 +886,8 @@ func getStrHash(next *[]PathNode, key string, N int) *PathNode {
 			return s
 		}
 		h = (h + 1) % N
-		s = (*PathNode)(unsafe.Pointer(uintptr(unsafe.Pointer(s)) + sizePathNode))
+		// the slot pointer wraps with the index
+		s = (*PathNode)(rt.IndexPtr(*(*unsafe.Pointer)(unsafe.Pointer(next)), sizePathNode, h))
 	}
 	return nil
 }
@@ -896,7 +897,8 @@ func seekIntHash(next unsafe.Pointer, key uint64, N int) int {
 	s := (*PathNode)(rt.IndexPtr(next, sizePathNode, h))
 	for s.Path.t != 0 {
 		h = (h + 1) % N
-		s = (*PathNode)(rt.AddPtr(unsafe.Pointer(s), sizePathNode))
+		// the slot pointer wraps with the index
+		s = (*PathNode)(rt.IndexPtr(next, sizePathNode, h))
 	}
 	return h
 }
@@ -909,7 +911,8 @@ func getIntHash(next *[]PathNode, key uint64, N int) *PathNode {
 			return s
 		}
 		h = (h + 1) % N
-		s = (*PathNode)(rt.AddPtr(unsafe.Pointer(s), sizePathNode))
+		// the slot pointer wraps with the index
+		s = (*PathNode)(rt.IndexPtr(*(*unsafe.Pointer)(unsafe.Pointer(next)), sizePathNode, h))
 	}
 	return nil
 }
